@@ -144,7 +144,10 @@ def substituted_of_last_op(world):
     for f in CTX.frames:
         for rec in f.reads:
             if len(rec) > 5 and rec[5]:
-                out.add((rec[0], str(rec[1])))
+                if isinstance(rec[5], list):
+                    out.update((rec[0], q) for q in rec[5])
+                else:
+                    out.add((rec[0], str(rec[1])))
     return out
 
 
